@@ -667,8 +667,16 @@ def norm_index(i, n, default):
     if z3.is_int_value(its):
         v = its.as_long()
         if v >= 0:
+            d = _decide_lt(n, z3.IntVal(v))  # decided syntactically when n is a sum of lengths (len >= 0)
+            if d is not None:
+                return n if d else z3.IntVal(v)
             return z3.If(n < v, n, z3.IntVal(v))
         return z3.If(n + v < 0, z3.IntVal(0), n + v)
+    if _decide_lt(it, z3.IntVal(0)) is False:  # index syntactically >= 0
+        d = _decide_lt(n, it)
+        if d is not None:
+            return n if d else it
+        return z3.If(it > n, n, it)
     return z3.If(it < 0, z3.If(n + it < 0, z3.IntVal(0), n + it), z3.If(it > n, n, it))
 
 
@@ -684,12 +692,18 @@ def zmin(a, b):
     return z3.If(a < b, a, b)
 
 
+INBOUNDS: dict = {}  # per path (cleared by Explorer.reset_path): id of substr term -> (term, exact length); opt-in, see lib.pc_slice
+
+
 def slen(t):
     """Length of a string term as integer arithmetic over the lengths of its base strings."""
     if z3.is_string_value(t):
         return z3.IntVal(len(str_value_to_pystr(t)))
     k = _kind(t)
     if k == z3.Z3_OP_SEQ_EXTRACT:
+        e = INBOUNDS.get(t.get_id())
+        if e is not None and e[0].eq(t):
+            return e[1]  # slice known (from the path condition, see lib.pc_slice) to lie within its base string
         base, a, n = t.children()
         lb = slen(base)
         return simp(z3.If(z3.Or(a < 0, n <= 0, a >= lb), z3.IntVal(0), zmin(n, lb - a)))
@@ -746,6 +760,10 @@ def ssub(t, a, n):
         sh = ssub(head, a, ta)
         st = ssub(tail, simp(z3.If(a - lh > 0, a - lh, z3.IntVal(0))), simp(n - ta))
         return simp(z3.Concat(sh, st))
+    if _is_byte_char(t):
+        a_s, n_s = simp(a), simp(n)
+        if z3.is_int_value(a_s) and z3.is_int_value(n_s):  # slice of a 1-character string with constant bounds (a >= 0)
+            return t if (a_s.as_long() == 0 and n_s.as_long() >= 1) else z3.StringVal("")
     return z3.SubString(t, a, n)
 
 
